@@ -453,6 +453,13 @@ func body(c *kernel.Ctx) {
 	st.faulty = verifrt.Intn("cfg", 4) == 3
 	focusKind := verifrt.Intn("cfg", nKinds)
 	focusEp := verifrt.Intn("cfg", st.nEpochs)
+	growing := verifrt.Intn("cfg", 4) == 3 // scenario family "growing epoch", see below
+	if growing {
+		st.nVals, nOps = maxVals, 5 // the cached list grows five times: 1, 2, 4 and 8 slots of capacity
+		if focusKind == 2 {
+			focusKind = verifrt.Intn("cfg", 2) // lists of sync duties hold one entry per validator in request order
+		}
+	}
 	for k := 0; k < nKinds; k++ {
 		for e := 0; e < st.nEpochs; e++ {
 			for v := 0; v <= maxVer; v++ {
@@ -488,6 +495,14 @@ func body(c *kernel.Ctx) {
 	}
 	cache := eth2wrap.NewDutiesCache(bn, initial)
 
+	// Scenario family "growing epoch" (a quarter of the runs): client 0 asks the focus epoch for validator 0, then 0-1,
+	// then 0-2, ... (every request after the first a partial hit that amends the cached epoch, some of them within the
+	// spare capacity of the cached list), while the other clients keep asking for subsets of what is already cached
+	// (pure hits that read the cached list while it is being amended).
+	grown := 0
+	if growing {
+		verifrt.Probe("scenario:growing-epoch")
+	}
 	var wg sync.WaitGroup
 	reads := 0
 	for cl := 0; cl < nClients; cl++ {
@@ -503,9 +518,45 @@ func body(c *kernel.Ctx) {
 					cache.UpdateActiveValIndices(activeList())
 					verifrt.Probe("active-validator-list-replaced")
 				}
-				switch x := verifrt.Intn("w", 12); {
+				x := verifrt.Intn("w", 12)
+				if growing && x >= 8 && x != 11 && verifrt.Intn("w", 3) != 0 {
+					x = 0 // mostly reads in this family
+				}
+				switch {
 				case x <= 7 || x == 11:
 					o := &op{typ: opRead, client: cl}
+					if growing {
+						o.kind, o.ep = focusKind, focusEp
+						st.mu.Lock()
+						g := grown
+						st.mu.Unlock()
+						if cl == 0 {
+							for j := 0; j <= g && j < st.nVals; j++ {
+								o.req = append(o.req, j)
+							}
+						} else {
+							if g == 0 {
+								g = 1
+							}
+							mask := 1 + verifrt.Intn("w", (1<<g)-1)
+							for j := 0; j < g; j++ {
+								if mask&(1<<j) != 0 {
+									o.req = append(o.req, j)
+								}
+							}
+						}
+						last = o
+						doRead(c, ctx, st, cache, o)
+						reads++
+						if cl == 0 {
+							st.mu.Lock()
+							if grown < st.nVals-1 {
+								grown++
+							}
+							st.mu.Unlock()
+						}
+						continue
+					}
 					if last != nil && x == 11 {
 						// identical repeat of this client's previous request
 						o.kind, o.ep, o.req = last.kind, last.ep, slices.Clone(last.req)
